@@ -675,7 +675,7 @@ def _run_synonyms(ctx, rng):
   projections and outputs."""
   tf, tfl = _state["tf"], _state["tfl"]
   which = pick(rng, ["lattice_mono", "lattice_unimodal", "lattice_trust", "lattice_tuple_list", "pwl_mono", "pwl_convexity", "linear_mono", "kfl_mono",
-                     "lattice_single_constraints"])
+                     "lattice_single_constraints", "premade_feature_spelling", "premade_feature_spelling"])
   def same(a, b, what):
     ok = a.shape == b.shape and bool(np.array_equal(a, b, equal_nan=True))
     ctx.check("synonyms/identical", ok, "%s: spellings differ by %.3g" % (what, float(np.nanmax(np.abs(a.astype(np.float64) - b.astype(np.float64)))) if a.shape == b.shape else -1),
@@ -711,6 +711,54 @@ def _run_synonyms(ctx, rng):
       l.kernel.assign(w)
       l.finalize_constraints()
     same(la.kernel.numpy(), lb.kernel.numpy(), which + " finalize_constraints")
+  elif which == "premade_feature_spelling":
+    # premade models built from FeatureConfigs that differ only in how monotonicity / convexity / unimodality are spelled
+    # (with the non-default flags that branch on them), same weights, every variable's constraint applied once
+    nf = int(rng.randint(2, 4))
+    kind = pick(rng, ["linear", "lattice"])
+    fa, fb = [], []
+    for i in range(nf):
+      m = int(pick(rng, [0, 0, 1, -1]))
+      conv = int(pick(rng, [0, 0, 1, -1])) if m != 0 else 0
+      extra = dict(pwl_calibration_always_monotonic=bool(rng.rand() < .5), pwl_calibration_input_keypoints=[0.0, 1.0, 2.0, 3.5],
+                   lattice_size=2)
+      uni = int(pick(rng, [0, 1])) if (m == 0 and kind == "lattice" and not extra["pwl_calibration_always_monotonic"] and rng.rand() < .3) else 0
+      if uni:
+        extra["lattice_size"] = 3
+      sp_m = {0: "none", 1: "increasing", -1: "decreasing"}[m]
+      sp_c = {0: "none", 1: "convex", -1: "concave"}[conv]
+      sp_u = {0: "none", 1: "valley"}[uni]
+      fa.append(tfl.configs.FeatureConfig("f%d" % i, monotonicity=m, pwl_calibration_convexity=conv, unimodality=uni, **extra))
+      fb.append(tfl.configs.FeatureConfig("f%d" % i, monotonicity=sp_m, pwl_calibration_convexity=sp_c, unimodality=sp_u, **extra))
+    models = []
+    for fs in (fa, fb):
+      if kind == "linear":
+        cfg_ = tfl.configs.CalibratedLinearConfig(feature_configs=fs, output_min=0.0, output_max=1.0, output_initialization=[0.0, 1.0])
+        models.append(tfl.premade.CalibratedLinear(cfg_))
+      else:
+        cfg_ = tfl.configs.CalibratedLatticeConfig(feature_configs=fs, output_min=0.0, output_max=1.0, output_initialization=[0.0, 1.0])
+        models.append(tfl.premade.CalibratedLattice(cfg_))
+    ma, mb = models
+    X = [rng.uniform(-0.5, 4.0, size=(7, 1)).astype(np.float32) for _ in range(nf)]
+    ya0, yb0 = np.asarray(ma(X)), np.asarray(mb(X))
+    same(ya0, yb0, "premade %s initial output" % kind)
+    va, vb = ma.trainable_variables, mb.trainable_variables
+    okv = [tuple(v.shape) for v in va] == [tuple(v.shape) for v in vb]
+    ctx.check("synonyms/identical", okv, "premade %s: the two spellings create different variables" % kind, info={"which": which})
+    if okv:
+      for a_, b_ in zip(va, vb):
+        val = (rng.normal(size=a_.shape) * 2).astype(np.float32)
+        a_.assign(val); b_.assign(val)
+      ca = [v.constraint is not None for v in va]
+      cb = [v.constraint is not None for v in vb]
+      ctx.check("synonyms/identical", ca == cb, "premade %s: the two spellings constrain different variables: %s vs %s" % (kind, ca, cb), info={"which": which})
+      for vs in (va, vb):
+        for v in vs:
+          if v.constraint is not None:
+            v.assign(v.constraint(v))
+      for a_, b_ in zip(va, vb):
+        same(a_.numpy(), b_.numpy(), "premade %s weights after constraints (%s)" % (kind, a_.name))
+      same(np.asarray(ma(X)), np.asarray(mb(X)), "premade %s output after constraints" % kind)
   elif which in ("pwl_mono", "pwl_convexity"):
     d = pick(rng, [("increasing", 1), ("decreasing", -1), ("none", 0)])
     c = pick(rng, [("convex", 1), ("concave", -1), ("none", 0)]) if which == "pwl_convexity" else ("none", 0)
